@@ -105,7 +105,7 @@ def url_parts(draw):
     if draw(st.integers(0, 4)) == 0:
         p["path"] = None
     else:
-        seg = st.one_of(_word(1, 5), _word(1, 5), st.just(b"."), st.just(b".."), st.just(b""), _pct(_word(1, 6, WORDCH + b"/ ."), R.UNRESERVED), st.sampled_from([b"%2e", b"%2E%2e", b"a%2Fb", b"%2f", b".%2e", b"x.y", b"..."]))
+        seg = st.one_of(_word(1, 5), _word(1, 5), st.just(b"."), st.just(b".."), st.just(b""), _pct(_word(1, 6, WORDCH + b"/ ."), R.UNRESERVED), st.sampled_from([b"%2e", b"%2E%2e", b"a%2Fb", b"%2f", b".%2e", b"x.y", b"..."]), st.tuples(st.integers(0, 255), st.booleans(), _word(0, 2)).map(lambda t: t[2] + ((b"%%%02x" if t[1] else b"%%%02X") % t[0])))
         p["path"] = b"/" + b"/".join(draw(st.lists(seg, min_size=0, max_size=5)))
     p["query"] = draw(st.one_of(st.none(), st.none(), st.just(b""), st.tuples(_word(1, 4), _pct(_word(0, 6, WORDCH + b" &=/?"), R.UNRESERVED + b"=&/?")).map(lambda t: t[0] + b"=" + t[1])))
     p["fragment"] = draw(st.one_of(st.none(), st.none(), st.just(b""), _pct(_word(1, 6, WORDCH + b" /?"), R.UNRESERVED + b"/?")))
